@@ -243,6 +243,7 @@ fn width_part<const B: u32>(seed: u64, thorough: bool, out: &mut Out) -> Value {
         // bonus attempt (not part of the claim, never counted as success when it times out):
         // n and d both symbolic, the code's own case analysis forks on the solver
         let mut bonus = Out::default();
+        bonus.deadline = out.deadline;
         run_explore::<B>("div(n,d) fully symbolic", Kind::Z3, 30_000, &mut bonus, &|obs| {
             let (n, d) = with(|c| (c.ar.var(w, 0), c.ar.var(w, 1)));
             div_obligations::<B>(SymCell(n), SymCell(d), obs);
